@@ -8,9 +8,12 @@ import (
 	"fmt"
 	"os"
 	"strconv"
+	"time"
 
+	"github.com/gorilla/websocket"
 	"shanhu.io/g/sniproxy"
 	"verifharness/hx"
+	"verifharness/rpcx"
 )
 
 // Seg is a piece of a byte string: literal hex, or a run of one byte.
@@ -137,6 +140,8 @@ type Case struct {
 	Typ    int     `json:"typ"`
 	Ec     int     `json:"ec"`
 	MaxRead string `json:"maxread,omitempty"`
+	BufLen  int    `json:"buflen"`
+	RepLen  int    `json:"replen"`
 	Avail  int     `json:"avail"`
 	Obs    *Obs    `json:"obs,omitempty"`
 }
@@ -302,6 +307,18 @@ func genCases(seed uint64, n int) []Case {
 		}
 	}
 
+	// A peer answering a read request with fewer / exactly / more bytes than
+	// the caller asked for, through the real transport and tunnel.Read.
+	for _, bl := range []int{0, 1, 7, 4096, 32768} {
+		for _, d := range []int{-1, 0, 1, 2, 1000, 40000} {
+			rl := bl + d
+			if rl < 0 {
+				continue
+			}
+			add(Case{Stream: "read-reply-size", Op: "tread", BufLen: bl, RepLen: rl})
+		}
+	}
+
 	// Every error code 0..255 (the property quantifies over all of them) on
 	// each reply kind that carries an error, with messages that differ from
 	// any text the in-tree server would send.
@@ -456,11 +473,54 @@ func runCase(c *Case) {
 			o.Typ = int(typ)
 			o.Fields = fromShim(fs)
 		}
+	case "tread":
+		o.N, o.Err = tunnelRead(c.BufLen, c.RepLen)
 	case "hread":
 		m, _ := strconv.ParseInt(c.MaxRead, 10, 64)
 		avail := make([]byte, c.Avail)
 		o.N, o.Code, o.Alloc = sniproxy.VerifHandleRead(m, avail)
 		o.Err = "ok"
+	}
+}
+
+// tunnelRead runs tunnel.Read(buf[:bufLen]) against a scripted peer that
+// answers the read request with replyLen bytes.
+func tunnelRead(bufLen, replyLen int) (int, string) {
+	pair, err := rpcx.NewWSPair()
+	if err != nil {
+		return 0, "other:" + err.Error()
+	}
+	defer pair.Close()
+	client := sniproxy.VerifNewClient(pair.A, nil)
+	go func() {
+		typ, req, err := pair.B.ReadMessage()
+		if err != nil || typ != websocket.BinaryMessage || len(req) < 9 {
+			return
+		}
+		body, _ := sniproxy.VerifEncodeMsg("readResponse", []sniproxy.VerifField{
+			{K: "bytes", B: make([]byte, replyLen)}, {K: "err", Nil: true},
+		})
+		frame := append(append(append([]byte{}, req[:8]...), req[8], 0), body...)
+		pair.B.WriteMessage(websocket.BinaryMessage, frame)
+	}()
+	type res struct {
+		n   int
+		err error
+	}
+	done := make(chan res, 1)
+	go func() {
+		buf := make([]byte, bufLen)
+		n, err := client.Tunnel(5).Read(buf)
+		done <- res{n, err}
+	}()
+	select {
+	case r := <-done:
+		if r.err != nil {
+			return r.n, "rejected"
+		}
+		return r.n, "ok"
+	case <-time.After(10 * time.Second):
+		return 0, "hang"
 	}
 }
 
